@@ -163,6 +163,10 @@ func coqVariant(v string) string {
 // ---- readable forms for replays / evidence samples ----
 
 func descOp(o opRec) string {
+	if o.F != 0 {
+		what := []string{"", "Set(%d, value whose Size() panics)", "SetAndGetRemoved(%d, value whose Size() panics)", "Set(%d, nil Value)"}[o.F]
+		return fmt.Sprintf("[recovered from a panicking "+what+"] then Peek(%d)", o.K, o.K)
+	}
 	switch o.Code {
 	case opGet, opPeek, opExist, opDelete:
 		return fmt.Sprintf("%s(%d)", opNames[o.Code], o.K)
